@@ -306,7 +306,9 @@ impl Story {
                 CommandType::Turns => {
                     let current_turn = self.get_state().current_turn_index;
                     self.get_state_mut()
-                        .push_evaluation_stack(Rc::new(Value::new::<i32>(current_turn + 1)));
+                        .push_evaluation_stack(Rc::new(Value::new::<i32>(
+                            current_turn.wrapping_add(1),
+                        )));
                 }
                 CommandType::TurnsSince | CommandType::ReadCount => {
                     let target = self.get_state_mut().pop_evaluation_stack()?;
@@ -431,7 +433,10 @@ impl Story {
                 }
                 CommandType::VisitIndex => {
                     let cpc = self.get_state().get_current_pointer().container.unwrap();
-                    let count = self.get_state_mut().visit_count_for_container(&cpc) - 1; // index
+                    let count = self
+                        .get_state_mut()
+                        .visit_count_for_container(&cpc)
+                        .wrapping_sub(1); // index
                     // not count
                     self.get_state_mut()
                         .push_evaluation_stack(Rc::new(Value::new::<i32>(count)));
